@@ -127,7 +127,7 @@ def setup_config(
         curr = config["current"]
 
         # if cstep and steps are equal, we stop here.
-        if curr.get("cstep") == curr.get("restarted_from", -1):
+        if curr.get("cstep") == config["simulation"]["steps"]:
             return None
 
         # set 'restarted_from'
